@@ -78,8 +78,8 @@ static char v_delim_buf[3] = " :";
 
 void harness(void)
 {
-    unsigned n, i;
-    char *in = vr_input(&n);
+    unsigned i;
+    VR_INPUT(in, n);
     vr_toks_t R;
     spif_charptr_t *l;
 
